@@ -34,6 +34,7 @@ def run(ck):
         'manifest_eq_real: every copy_to_path destination is a directory that exists before the run',
         'paths contain no NUL character',
     ])
+    be.run_corpus(ck)
     timings = {}
     for name, suite in [('format', be.suite_format), ('path', be.suite_path), ('emit', be.suite_emit),
                         ('wrap', be.suite_wrap), ('manifest_api', be.suite_manifest_api),
